@@ -143,6 +143,7 @@ class Effects:
                         self.exc_classes[c.name] = bn
                         changed = True
         self.trace: dict[int, dict[str, tuple]] = {}   # func id -> exc -> (where, via)
+        self.trace_all: dict[int, dict[str, list]] = {}  # every note, for per-statement chains
         self.suppressed: list[tuple] = []
         self.iterations = 0
         self._solve()
@@ -232,6 +233,18 @@ class Effects:
     def raises(self, f: FuncInfo) -> frozenset[str]:
         return self.summary.get(id(f.node), frozenset())
 
+    def why_at(self, f: FuncInfo, exc: str, lineno: int, depth: int = 6) -> list[str]:
+        """Like why(), but starting from the note recorded for the statement at *lineno*."""
+        recs = [r for r in self.trace_all.get(id(f.node), {}).get(exc, [])
+                if r[0].rsplit(":", 1)[-1] == str(lineno)]
+        if not recs:
+            return self.why(f, exc, depth)
+        where, what, via = recs[0]
+        out = [f"{where}: {what}"]
+        if via is not None:
+            out += self.why(via, exc, depth - 1)
+        return out
+
     def why(self, f: FuncInfo, exc: str, depth: int = 6) -> list[str]:
         """Call chain from f down to the primitive that raises exc."""
         out = []
@@ -287,8 +300,11 @@ class Effects:
 
     def _note(self, f: FuncInfo, node: ast.AST, exc: Iterable[str], what: str, via=None):
         for e in exc:
-            self._cur_trace.setdefault(e, (f"{f.module.relpath}:{getattr(node, 'lineno', 0)}",
-                                           what, via))
+            rec = (f"{f.module.relpath}:{getattr(node, 'lineno', 0)}", what, via)
+            self._cur_trace.setdefault(e, rec)
+            allr = self.trace_all.setdefault(id(f.node), {}).setdefault(e, [])
+            if rec not in allr:
+                allr.append(rec)
 
     def _block(self, stmts: list[ast.stmt], f: FuncInfo, caught) -> set[str]:
         out: set[str] = set()
@@ -761,6 +777,15 @@ class Effects:
                         r = set(self._callee(g))
                         self._note(f, c, r, f"calls {g.qualname}", g)
                         return r
+                # inherited from a base class outside the package (e.g. Thread.start on a
+                # StoppableThread): the primitive's raise set applies
+                if isinstance(rc, ClassInfo) and self.model.find_method(rc, meth) is None \
+                        and any(b not in [x.name for x in self.model.bases(rc)]
+                                for b in self.model.base_names(rc)):
+                    r = set(self._mprims().get(meth, set()))
+                    if r:
+                        self._note(f, c, r, f"{rc.name}.{meth}(...) inherited from an external base")
+                    return r
             if cands and rc is None and meth not in METHOD_PRIMS \
                     and meth not in ("get", "put", "close", "start", "stop", "join", "set",
                                      "clear", "wait", "append", "update", "items", "values",
